@@ -4,11 +4,50 @@ LIB = [
     "Go runtime and standard library (sync, sync/atomic, bufio, io) as exercised by the correspondence check",
 ]
 
+SCHED_TB = [
+    "GenAtomicShapes.lean lists, in source order, the shared-memory operations of Emit, resetUint64 and the "
+    "register functions (ksextract, go/ast)",
+    "classification of a shape into a protocol (Sched/Protocols.lean isAtomic*) and the modelling assumption that "
+    "a mutex-protected region is one atomic step (all accesses to the protected data are inside such regions)",
+    "atomicity of sync.Map operations, sync.Mutex and sync/atomic (Go memory model below the yield points)",
+]
+
 PROPS = {
+    "C09": dict(
+        proof_modules=["KsVerif.Proofs.C09"],
+        families=["sched.match.redis", "sched.match.http"],
+        rule="every schedule of the two halves of a connection at the yield points (each register is one step "
+             "under the matcher mutex), i.e. every order-preserving merge of the two message sequences, exhaustively "
+             "for 1-2 exchanges (quick) / 1-3 (thorough), random merges for 3-8 exchanges; non-trivial = the schedule "
+             "switches goroutine at least twice",
+        trusted_base=SCHED_TB + LIB,
+        assumptions=["ident strings are an injective image of (connection, ordinal)"],
+    ),
+    "C10": dict(
+        proof_modules=["KsVerif.Proofs.C10"],
+        families=["sched.match.redis", "sched.match.http"],
+        rule="the real Dissect of both halves runs in two controlled goroutines sharing matcher, counters and emitter; "
+             "every interleaving at the yield points, exhaustively (stateless DFS) for 1-2 exchanges (quick) / 1-3 "
+             "(thorough), seeded random schedules for 3-8 exchanges; trace, items, indices, residue and statistics "
+             "compared with the Lean interpreter of the regenerated shapes; non-trivial = at least two goroutine switches",
+        trusted_base=SCHED_TB + LIB,
+        assumptions=["kafka's polling matcher is not covered by the atomic-register theorem (see DESIGN.md C10)"],
+    ),
+    "C19": dict(
+        proof_modules=["KsVerif.Proofs.C19"],
+        families=["sched.emit"],
+        rule="the real Emitting.Emit called from 2-3 controlled goroutines on one or two streams sharing AppStats; every "
+             "interleaving at the yield points for small N (exhaustive DFS), seeded random schedules up to 4 tasks x 12 "
+             "emits; non-trivial = at least two goroutine switches",
+        trusted_base=SCHED_TB + LIB,
+        assumptions=["TcpStream.GetIndex / IncrementItemCount are individually atomic (mock stream uses sync/atomic)"],
+    ),
     "C20": dict(
         proof_modules=["KsVerif.Proofs.C20"],
-        families=["progress"],
-        rule="progress: every feed/current/reset sequence up to length 6 (quick) / 8 (thorough) over "
+        families=["progress", "sched.dump"],
+        rule="sched.dump: the real DumpStats and Inc* run as controlled goroutines; every interleaving at the "
+             "yield points for small configurations (exhaustive DFS), seeded random schedules for up to 4 dumps x 12 "
+             "increments; progress: every feed/current/reset sequence up to length 6 (quick) / 8 (thorough) over "
              "{feed 3, feed 10, current, reset}, plus seeded random sequences up to 40 operations over "
              "boundary byte counts; non-trivial = at least two readings; distinct by payload",
         trusted_base=["GenReadProgress.lean is a statement-level translation of ReadProgress.Feed/Current/Reset "
